@@ -20,6 +20,11 @@ DELEGATED = [
     ("index", ("b",)), ("count", ("a",)), ("count", ("",)), ("startswith", ("a",)), ("endswith", (",",)),
     ("isalpha", ()), ("isspace", ()), ("islower", ()), ("partition", (",",)), ("rpartition", (" ",)), ("rsplit", (",",)),
     ("rsplit", (None, 1)), ("casefold", ()), ("removeprefix", ("a",)), ("removesuffix", (",",)),
+    # the rest of str's public methods that __getattr__ hands through (one call each at least)
+    ("encode", ()), ("encode", ("ascii", "replace")), ("format", ()), ("format_map", ({},)), ("isascii", ()), ("isdecimal", ()),
+    ("isdigit", ()), ("isidentifier", ()), ("isnumeric", ()), ("isprintable", ()), ("istitle", ()), ("isupper", ()),
+    ("isalnum", ()), ("rindex", ("a",)), ("translate", ({97: 98, 44: None},)), ("lstrip", ("a",)), ("expandtabs", (3,)),
+    ("maketrans", ("ab", "ba")), ("rsplit", (" ",)), ("replace", ("a", "", 1)), ("count", ("a", 1)), ("find", ("",)),
 ]
 
 
@@ -33,7 +38,7 @@ class C15(PureCheck):
     rule = ("layouts with >=1 run: all single-run layouts of length 0..2 + sampled 2- and 3-run layouts (quick) / all <=2-run "
             "layouts + sampled 3-run (thorough) over {a, b, space, newline, comma} x {plain, red, bold+on_blue}; split with 8 "
             "separators (present/absent/adjacent/at the ends) and 11 group-free regexes (6 of them able to match zero characters: look-ahead/behind, word boundary, optional, starred, empty), 5 separators with regex metacharacters used both literally and as regexes, splitlines with keepends False/True (also over every line boundary str.splitlines knows: CR, CR LF, VT, FF, FS, GS, RS, NEL, LS, PS), "
-            "ljust/rjust with widths below/at/above the length with and without fill, 36 delegated str method calls; Python's "
+            "ljust/rjust with widths below/at/above the length with and without fill, 58 delegated str method calls (every public str method that __getattr__ hands through at least once); Python's "
             "own answer on the plain text is logged with each event as the reference. distinct_nontrivial = distinct "
             "(layout, method, args) with a formatted or multi-run operand")
     exhaustive = {"quick": False, "thorough": False}
